@@ -63,10 +63,20 @@ CoverOK(need, js) == LET f == Flat(js) IN
 NotCovered(need, js) == { c \in need : CountIn(Flat(js), c) = 0 }
 CoveredTwice(js)     == { c \in SeqSet(Flat(js)) : CountIn(Flat(js), c) > 1 }
 
+(* the intended plan in closed form, from the idxstats lines <<[cid, small], ...>>: `*` first, one job per big  *)
+(* contig in idxstats order, then one job pooling all small contigs (D-level reference for DIVERGENCE notes)      *)
+SmallThreshold == 100000
+PlanOf(stats, star) ==
+    LET bigs   == SelectSeq(stats, LAMBDA c : c.cid # star /\ ~c.small)
+        smalls == SelectSeq(stats, LAMBDA c : c.cid # star /\ c.small)
+    IN << <<star>> >> \o [k \in 1 .. Len(bigs) |-> <<bigs[k].cid>>]
+       \o (IF Len(smalls) > 0 THEN << [k \in 1 .. Len(smalls) |-> smalls[k].cid] >> ELSE <<>>)
+
 ---------------------------------------------------------------------------------------------------
 VARIABLES layout,   \* <<[big, n], ...>> header order
           nstar,    \* number of unplaced records
           mode,     \* "single" | "multi"
+          noRejects,\* --no_rejects: invalid fragments are not written
           pc,       \* "plan" | "run" | "index" | "done"
           i,        \* loop index into Stats (multi) / 0
           current,  \* pending small contigs (the code's `current`)
@@ -75,7 +85,7 @@ VARIABLES layout,   \* <<[big, n], ...>> header order
           parts,    \* job index -> records of the per-job file (only jobs that kept their file)
           out,      \* records of the final output file, in file order
           indexed
-vars == <<layout, nstar, mode, pc, i, current, jobs, pending, parts, out, indexed>>
+vars == <<layout, nstar, mode, noRejects, pc, i, current, jobs, pending, parts, out, indexed>>
 
 NContigs == Len(layout)
 Recs(c) == IF c = Star THEN [k \in 1 .. nstar |-> <<Star, k>>] ELSE [k \in 1 .. layout[c].n |-> <<c, k>>]
@@ -93,6 +103,7 @@ Layouts == UNION { [1 .. L -> [big : BOOLEAN, n : 0 .. MaxN]] : L \in 1 .. MaxCo
 Init == /\ layout \in Layouts
         /\ nstar \in 0 .. MaxStar
         /\ mode \in Modes
+        /\ noRejects \in BOOLEAN
         /\ pc = "plan" /\ i = 0 /\ current = <<>> /\ jobs = <<>>
         /\ pending = {} /\ parts = <<>> /\ out = <<>> /\ indexed = FALSE
 
@@ -103,13 +114,13 @@ PlanSingle ==
     /\ jobs' = << <<Star>>, [c \in 1 .. NContigs |-> c] >>
     /\ pending' = {1, 2}
     /\ pc' = "run"
-    /\ UNCHANGED <<layout, nstar, mode, i, current, parts, out, indexed>>
+    /\ UNCHANGED <<layout, nstar, mode, noRejects, i, current, parts, out, indexed>>
 
 PlanInit ==
     /\ pc = "plan" /\ mode = "multi" /\ i = 0
     /\ jobs' = << <<Star>> >>
     /\ i' = 1
-    /\ UNCHANGED <<layout, nstar, mode, pc, current, pending, parts, out, indexed>>
+    /\ UNCHANGED <<layout, nstar, mode, noRejects, pc, current, pending, parts, out, indexed>>
 
 PlanStep ==
     /\ pc = "plan" /\ mode = "multi" /\ i >= 1 /\ i <= Len(Stats)
@@ -124,18 +135,23 @@ PlanStep ==
                  ELSE jobs' = Append(jobs, <<c.cid>>) /\ UNCHANGED current
             ELSE jobs' = Append(jobs, <<c.cid>>) /\ UNCHANGED current
     /\ i' = i + 1
-    /\ UNCHANGED <<layout, nstar, mode, pc, pending, parts, out, indexed>>
+    /\ UNCHANGED <<layout, nstar, mode, noRejects, pc, pending, parts, out, indexed>>
 
 PlanFlush ==
     /\ pc = "plan" /\ mode = "multi" /\ i > Len(Stats)
     /\ jobs' = IF Len(current) > (IF Dev("lone_small") THEN 1 ELSE 0) THEN Append(jobs, current) ELSE jobs
     /\ pending' = DOMAIN jobs'
     /\ pc' = "run"
-    /\ UNCHANGED <<layout, nstar, mode, i, current, parts, out, indexed>>
+    /\ UNCHANGED <<layout, nstar, mode, noRejects, i, current, parts, out, indexed>>
 
 ---------------------------------------------------------------------------------------------------
 (* execution *)
-JobOutput(job) == Flat([t \in DOMAIN job |-> Recs(job[t])])
+(* which records belong to invalid fragments is input data; the model fixes it: unplaced records and every second *)
+(* placed record of a contig are invalid.  With --no_rejects the iterator does not yield them.                   *)
+Valid(r) == r[1] # Star /\ r[2] % 2 = 1
+Written(q) == IF noRejects THEN SelectSeq(q, Valid) ELSE q
+JobOutput(job) == Flat([t \in DOMAIN job |-> Written(Recs(job[t]))])
+Expected == Written(Input)
 
 RecLe(a, b) == LET ka == IF a[1] = Star THEN NContigs + 1 ELSE a[1]
                    kb == IF b[1] = Star THEN NContigs + 1 ELSE b[1]
@@ -151,32 +167,32 @@ RunJob(j) ==
           THEN out' = out \o o /\ UNCHANGED parts     \* one unsorted file
           ELSE parts' = [x \in DOMAIN parts \cup {j} |-> IF x = j THEN SortSeq(o, RecLe) ELSE parts[x]] /\ UNCHANGED out
     /\ pending' = pending \ {j}
-    /\ UNCHANGED <<layout, nstar, mode, pc, i, current, jobs, indexed>>
+    /\ UNCHANGED <<layout, nstar, mode, noRejects, pc, i, current, jobs, indexed>>
 
 DropEmptyJob(j) ==
     /\ pc = "run" /\ j \in pending /\ mode = "multi"
     /\ Len(JobOutput(jobs[j])) = 0
     /\ pending' = pending \ {j}
-    /\ UNCHANGED <<layout, nstar, mode, pc, i, current, jobs, parts, out, indexed>>
+    /\ UNCHANGED <<layout, nstar, mode, noRejects, pc, i, current, jobs, parts, out, indexed>>
 
 Merge ==
     /\ pc = "run" /\ pending = {} /\ mode = "multi"
     /\ out' = SortSeq(Flat([k \in 1 .. Cardinality(DOMAIN parts) |->
                                parts[CHOOSE x \in DOMAIN parts : Cardinality({y \in DOMAIN parts : y < x}) = k - 1]]), RecLe)
     /\ pc' = "index"
-    /\ UNCHANGED <<layout, nstar, mode, i, current, jobs, pending, parts, indexed>>
+    /\ UNCHANGED <<layout, nstar, mode, noRejects, i, current, jobs, pending, parts, indexed>>
 
 SortSingle ==
     /\ pc = "run" /\ pending = {} /\ mode = "single"
     /\ out' = SortSeq(out, RecLe)
     /\ pc' = "index"
-    /\ UNCHANGED <<layout, nstar, mode, i, current, jobs, pending, parts, indexed>>
+    /\ UNCHANGED <<layout, nstar, mode, noRejects, i, current, jobs, pending, parts, indexed>>
 
 Index ==
     /\ pc = "index"
     /\ indexed' = TRUE
     /\ pc' = "done"
-    /\ UNCHANGED <<layout, nstar, mode, i, current, jobs, pending, parts, out>>
+    /\ UNCHANGED <<layout, nstar, mode, noRejects, i, current, jobs, pending, parts, out>>
 
 RunSomeJob       == \E j \in pending : RunJob(j)
 DropSomeEmptyJob == \E j \in pending : DropEmptyJob(j)
@@ -189,8 +205,10 @@ Spec == Init /\ [][Next]_vars
 ---------------------------------------------------------------------------------------------------
 (* Properties *)
 Inv_C05_Cover    == pc # "plan" => CoverOK(Need, jobs)
-Inv_C05_Multiset == pc = "done" => SameBag(Input, out)
+Inv_C05_Multiset == pc = "done" => SameBag(Expected, out)       \* with --no_rejects: input minus the invalid fragments
 Inv_C05_Sorted   == pc = "done" => Sorted(out) /\ indexed
+(* the stepwise plan of the design equals the closed form *)
+Inv_PlanIsDesignPlan == (Variant = "design" /\ mode = "multi" /\ pc # "plan") => jobs = PlanOf(Stats, Star)
 (* progress bookkeeping of the D-level: a job file is kept iff it is non-empty *)
 Inv_PartsNonEmpty == \A j \in DOMAIN parts : Len(parts[j]) > 0
 
